@@ -140,6 +140,19 @@ def has_rank(value: ir.Value | None, rank: int) -> bool:
     return (shape is not None) and (shape.rank() == rank)
 
 
+def broadcast_keeps_rank(value: ir.Value | None, reference: ir.Value | None) -> bool:
+    """Returns True if `value` is statically known not to add dimensions when it is broadcast
+    against `reference` (of rank >= 1): its rank is at most 1, or at most the known rank of `reference`."""
+    if value is None or value.shape is None:
+        return False
+    rank = value.shape.rank()
+    if rank <= 1:
+        return True
+    if reference is None or reference.shape is None:
+        return False
+    return rank <= reference.shape.rank()
+
+
 def get_dim(value: ir.Value | None, dim: int) -> ir.SymbolicDim | int | None:
     """Returns the value of the given dimension, or None if it is not statically known."""
     if value is None:
